@@ -25,7 +25,9 @@ for d in sorted(glob.glob(f"{V}/seeded/*/")):
         rows.append((sid, "patch does not apply to the current tree (a later repair touched the same lines)", ""))
         print(rows[-1], flush=True)
         continue
-    demo = subprocess.run(["/venv/bin/python", d + "demo.py"], capture_output=True, text=True, cwd=REPO)
+    demo = subprocess.run(["/venv/bin/python", d + "demo.py"], capture_output=True, text=True, cwd=REPO, env=dict(os.environ, PYTHONPATH=REPO))
+    # older demos exit non-zero when the property is violated; the demos of rounds 6+ print PROPERTY HOLDS / PROPERTY VIOLATED and exit 0
+    demo_fails = demo.returncode != 0 or "PROPERTY VIOLATED" in demo.stdout
     res = {}
     try:
         for c in checks:
@@ -39,7 +41,7 @@ for d in sorted(glob.glob(f"{V}/seeded/*/")):
     finally:
         subprocess.run(["git", "-C", REPO, "checkout", "--", "."], check=True)
     n_c = max((v.count("C") for v in res.values()), default=0)
-    status = f"caught {n_c}/{len(SEEDS)} (best check)" if demo.returncode != 0 else "demo passes on the current tree: neutralised by a later repair"
+    status = f"caught {n_c}/{len(SEEDS)} (best check)" if demo_fails else "demo passes on the current tree: neutralised by a later repair"
     rows.append((sid, status, " ".join(f"{k}:{v}" for k, v in res.items())))
     print(rows[-1], flush=True)
     for f in glob.glob(f"{V}/replays/*.json"):
